@@ -227,6 +227,9 @@ class GetOrCreateTrial(_Study):
     res = interp.resolve(env['result'])
     n0 = interp.to_z3(env['old']['n'])
     n1 = interp.resolve(s.fields['_trials']).len
+    if absobj.ref_id(res) is None:
+      # the result is not a trial this section looked up or created
+      return z3.BoolVal(False)
     if latest is not None:
       shared = z3.And(absobj.ref_id(res) == absobj.ref_id(latest), n1 == n0)
       created = z3.And(n1 == n0 + 1, TID(absobj.ref_id(res)) == n0 + 1)
